@@ -101,6 +101,12 @@ pub fn count_system_event_data<T: Send + Sync + 'static>(world: &mut World) -> u
     access::count_system_event_data::<T>(world)
 }
 
+/// Lists the entities that currently store a system command.
+pub fn system_command_entities(world: &mut World) -> Vec<Entity>
+{
+    access::system_command_entities(world)
+}
+
 /// Returns true if `entity` currently carries local data for the entity world reactor `T`.
 pub fn has_entity_world_local<T: EntityWorldReactor>(world: &World, entity: Entity) -> bool
 {
